@@ -443,9 +443,16 @@ def gen_wide(rng, tier):
     for desc, value in W.CORPUS:
         u = B.Universe(desc)
         _UNIS[u.modname] = u
-        yield {"ctx": u.export_ctx(), "value": value, "clazz": "Root", "desc": desc, "_uni": u.modname, "feat": W.FEAT}
-    for _ in range(n_cases(tier, 120, 800)):
-        u, desc, ctx = new_universe(rng, W.WIDE_FEATURES)
+        ctx = u.export_ctx()
+        yield {"ctx": ctx, "value": value, "clazz": "Root", "desc": desc, "_uni": u.modname, "feat": W.FEAT, "frag": "F8"}
+        for name, feat in sorted(W.FRAGMENTS.items()):
+            if name != "F8":
+                yield {"ctx": ctx, "value": value, "clazz": "Root", "desc": desc, "_uni": u.modname, "feat": feat, "frag": name}
+    for k in range(n_cases(tier, 120, 800)):
+        # half of the universes use every feature (hypotheses of F8), the others are drawn for one of the
+        # smaller fragments, whose `ctxOK` / `valOK` are evaluated on them
+        frag, feat = ("F8", dict(W.FEAT)) if k % 2 == 0 else W.pick_feat(rng)
+        u, desc, ctx = new_universe(rng, W.WIDE_FEATURES if frag == "F8" else W.features_for(rng, feat))
         for _ in range(5):
             try:
                 obj = G.gen_instance(rng, u, "Root")
@@ -456,7 +463,7 @@ def gen_wide(rng, tier):
                 val = W.normal_generic(val)
             if rng.random() < 0.3:
                 val = W.spoil(rng, val)
-            yield {"ctx": ctx, "value": val, "clazz": "Root", "desc": desc, "_uni": u.modname, "feat": W.FEAT,
+            yield {"ctx": ctx, "value": val, "clazz": "Root", "desc": desc, "_uni": u.modname, "feat": feat, "frag": frag,
                    "ignore_default_attributes": rng.random() < 0.3}
 
 
@@ -466,12 +473,15 @@ def _ns_agree_wide(ctx):
 
 def impl_valFN(a):
     """`ctxOK` / `valOK` of Bind/FN.lean against the independent description of the excluded regions"""
-    return {"ok": {"ctx": W.ctx_expected(a["ctx"], _ns_agree_wide), "val": not W.regions(a["desc"], a["value"], a["ctx"])}}
+    feat = a.get("feat", W.FEAT)
+    return {"ok": {"ctx": W.ctx_expected(a["ctx"], _ns_agree_wide, feat),
+                   "val": not W.regions(a["desc"], a["value"], a["ctx"], inherit=bool(feat.get("inherit")))}}
 
 
 CORRS.append(
     Corr("c01.valFN", gen_wide, impl_valFN,
-         classify=lambda a, o: json.dumps(o.get("ok"), sort_keys=True) + (" +generic" if '"any"' in json.dumps(a["value"]) else ""),
+         classify=lambda a, o: a.get("frag", "F8") + " " + json.dumps(o.get("ok"), sort_keys=True)
+         + (" +generic" if '"any"' in json.dumps(a["value"]) else ""),
          describe="hypotheses ctxOK/valOK of bind_generate_F2..F8 on exported real universes and instances vs the oracle's "
                   "description of the excluded regions")
 )
